@@ -14,6 +14,8 @@ import math
 import random
 from fractions import Fraction
 
+import zlib
+
 import numpy as np
 
 from pwlib.share import shcopy
@@ -552,6 +554,15 @@ def make_sample(spec):
 
     def impl():
         rng, _ = build_rng(spec["rng"])
+        if k > 0 and spec.get("reused_buffer", zlib.crc32(repr(spec["tris"]).encode()) % 3 == 0):
+            # a caller that keeps its triangles in one buffer and hands out a write-protected view of it: the buffer first
+            # held other triangles, whose areas were looked at; then it was refilled in place with these and sampled
+            buf = np.array(T[::-1] * 3.0 + 1.0)
+            view = buf.view()
+            view.flags.writeable = False
+            surface_area(view)
+            buf[...] = T
+            return canon_sample(sample(view, n, rng=rng, weights=None if W is None else shcopy(W), ret_face_indices=True))
         return canon_sample(sample(shcopy(T), n, rng=rng, weights=None if W is None else shcopy(W), ret_face_indices=True))
 
     def line(hasw, w):
